@@ -7,7 +7,9 @@ import (
 	"fmt"
 	"os"
 	"path/filepath"
+	"runtime"
 	"strconv"
+	"strings"
 	"testing"
 	"time"
 
@@ -323,9 +325,10 @@ const (
 	// its handler registered: unlisted and not removable, it keeps receiving every event.
 	excludeUpdateOntoExistingID = true
 	sigOrphanAfterUpdate        = "service/orphan-handler-after-update-onto-existing-id"
-	// DeregisterHandlerSpec/UpdateHandlerSpec/CloseTopic/DeleteTopic/Close hold Service.mu while they wait for the
-	// handler's goroutine to drain its queue; a publish handler with a queued event needs Service.mu.RLock in
-	// Service.Collect: deadlock. Avoided by waiting for all deliveries before every step.
+	// DeregisterHandlerSpec/UpdateHandlerSpec/CloseTopic/DeleteTopic/Close hold Service.mu, and Topics.DeregisterHandler/
+	// ReplaceHandler/Close hold Topics.mu, while they wait for the handler's goroutine to drain its queue; a publish (or
+	// aggregate) handler that is still inside Service.Collect needs Service.mu.RLock / Topics.mu.RLock: deadlock.
+	// Avoided by letting these steps start only when no handler goroutine is inside Service.Collect.
 	excludeDrainWhilePublishing = true
 	sigDrainDeadlock            = "service/deadlock-draining-publish-handler"
 )
@@ -576,6 +579,26 @@ func (h *svcHarness) modelCollect(st *srcTopic, ev mEvent) {
 	}
 }
 
+// handlersIdle: no goroutine is inside Service.Collect (the harness calls Collect only synchronously, so
+// any such frame belongs to a publish or aggregate handler that republishes).
+func handlersIdle() bool {
+	buf := make([]byte, 1<<19)
+	n := runtime.Stack(buf, true)
+	return !strings.Contains(string(buf[:n]), "services/alert.(*Service).Collect(")
+}
+
+// beforeDrain runs before every step that makes the service wait for handler goroutines while it holds its
+// locks (finding service/deadlock-draining-publish-handler, avoided by construction).
+func (h *svcHarness) beforeDrain(st *srcTopic) {
+	if !excludeDrainWhilePublishing || h.witness {
+		return
+	}
+	if h.agg != nil && (st == nil || st.name == h.aggTopic) {
+		waitFor(func() bool { s, _ := h.aggSum(); return s >= h.aggExpected }, deliveryBound)
+	}
+	waitFor(handlersIdle, deliveryBound)
+}
+
 func (h *svcHarness) pickTopic(sel int, pred func(*srcTopic) bool) *srcTopic {
 	for i := 0; i < len(srcNames); i++ {
 		if st := h.src[srcNames[(sel+i)%len(srcNames)]]; pred(st) {
@@ -606,6 +629,10 @@ func (h *svcHarness) apply(op SOp) {
 	name := st.name
 	mt := h.model[name]
 	x.label("op:" + op.K)
+	switch op.K {
+	case "dereg", "upd", "close", "delete":
+		h.beforeDrain(st)
+	}
 	switch op.K {
 	case "collect":
 		n := h.serial
@@ -902,6 +929,7 @@ func (h *svcHarness) finish() {
 			return
 		}
 	}
+	h.beforeDrain(nil)
 	x.at("end of history: deregistering the handler specs")
 	for _, name := range srcNames {
 		st := h.src[name]
@@ -926,6 +954,7 @@ func (h *svcHarness) finish() {
 		return
 	}
 	x.at("end of history: Close")
+	h.beforeDrain(nil)
 	h.as.Close()
 	for _, lg := range h.ledgers {
 		if lg.closed {
@@ -986,18 +1015,19 @@ func runService(c ServiceCase, cc *kit.Case) {
 			x.fail("harness/env", "tempdir: %v", err)
 			return
 		}
-		defer os.RemoveAll(dir)
 		store, err := kit.OpenStore(filepath.Join(dir, "kapacitor.db"))
 		if err != nil {
+			os.RemoveAll(dir)
 			x.fail("harness/env", "bolt: %v", err)
 			return
 		}
-		defer store.Close()
-		as := salert.NewService(kit.DiagService.NewAlertServiceHandler(), nil, 0)
+		as := salert.NewService(kit.DiagService.NewAlertServiceHandler(), nil, alert.MinimumEventBufferSize) // topic-buffer-length: the smallest queue (cheap to allocate)
 		as.StorageService = store
 		as.HTTPDService = kit.HTTPDStub{}
 		as.PersistTopics = c.Persist
 		if err := as.Open(); err != nil {
+			store.Close()
+			os.RemoveAll(dir)
 			x.fail("harness/env", "alert service open: %v", err)
 			return
 		}
@@ -1015,11 +1045,16 @@ func runService(c ServiceCase, cc *kit.Case) {
 		h := &svcHarness{witness: c.Witness, x: x, as: as, dir: dir, model: map[string]*mTopic{}, src: map[string]*srcTopic{}}
 		defer func() {
 			if !closed {
-				// failed case: stop the aggregate goroutine and the topics
-				if h.agg != nil {
-					as.DeregisterHandlerSpec(h.aggTopic, "agg")
-				}
-				as.Close()
+				// failed case: stop the aggregate goroutine and the topics (not waited for: the service may be stuck)
+				go func() {
+					waitFor(handlersIdle, deliveryBound)
+					if h.agg != nil {
+						as.DeregisterHandlerSpec(h.aggTopic, "agg")
+					}
+					as.Close()
+					store.Close()
+					os.RemoveAll(dir)
+				}()
 			}
 		}()
 		for _, name := range srcNames {
@@ -1078,9 +1113,10 @@ func runService(c ServiceCase, cc *kit.Case) {
 			x.label("match-accepts-and-rejects")
 		}
 		h.finish()
-		closed = true
-		if x.failed() {
-			as.Close()
+		if !x.failed() {
+			closed = true
+			store.Close()
+			os.RemoveAll(dir)
 		}
 	})
 }
